@@ -95,7 +95,7 @@ def s_pps(tier):
         lambda t: dict(t[0], use_scenario_meta=t[1], **t[2]))
 
 
-PB_ONLY = {"t0": st.integers(0, 6), "allow_no_prediction": True}
+PB_ONLY = {"t0": st.integers(0, 6), "allow_no_prediction": True, "empty_cycles": True, "time_bounds": True}
 
 
 def s_pb_only(tier):
@@ -107,7 +107,8 @@ FACETS = [
     Facet("pb-only-domain", check, strategy=s_pb_only, quick=900, thorough=50000,
           rule="what the protobuf format can carry beyond the 2020a XML schema: initial time steps 0..6 (obstacles and "
                "planning problems), dynamic obstacles without prediction, PM / STD trajectory states, static-obstacle "
-               "signal states, predictions with their own shape"),
+               "signal states, predictions with their own shape, lights whose cycle has no elements (active flag "
+               "set afterwards), environment times at the documented bounds 24 h / 60 min"),
     Facet("sign-virtual", check, strategy=s_virtual, quick=150, thorough=3000,
           rule="networks with >= 1 virtual traffic sign (the only facet that generates virtual=True)"),
     Facet("network", check, strategy=s_network, quick=900, thorough=50000,
